@@ -43,10 +43,12 @@ const (
 	opSpawn   // bind a further consumer worker to the shared adapter (C13)
 	opAddBare // submit through a bare NewDistributedQueue producer ("another process")
 	opIntro   // every introspection call of the Worker interface (C19 API fuzz)
+	opWarmDone  // end of the warm-up task: releases every task parked in AwaitWarm at once
+	opAwaitWarm // park until the warm-up task is through (no-op without one)
 	nOps
 )
 
-var opNames = [nOps]string{"Add", "AddAll", "CloseJob", "Purge", "CloseQueue", "Wait", "Result", "Drain", "Status", "BatchWait", "BatchRead", "BatchPending", "Pause", "PauseAndWait", "Resume", "Stop", "WaitAndStop", "Restart", "TunePool", "WaitUntilFinished", "Bind", "CancelCtx", "OpenGate", "Settle", "Advance", "Sample", "QueuePending", "Yield", "Crash", "SpawnConsumer", "AddBare", "Introspect"}
+var opNames = [nOps]string{"Add", "AddAll", "CloseJob", "Purge", "CloseQueue", "Wait", "Result", "Drain", "Status", "BatchWait", "BatchRead", "BatchPending", "Pause", "PauseAndWait", "Resume", "Stop", "WaitAndStop", "Restart", "TunePool", "WaitUntilFinished", "Bind", "CancelCtx", "OpenGate", "Settle", "Advance", "Sample", "QueuePending", "Yield", "Crash", "SpawnConsumer", "AddBare", "Introspect", "WarmDone", "AwaitWarm"}
 
 // Op: K kind; Q queue index; A argument (sub number, batch number, tune value,
 // time units, bind kind); Subs: submission numbers of an Add/AddAll.
@@ -361,13 +363,32 @@ func (wd *World) runOp(op Op) {
 	case opSettle:
 		simrt.WaitQuiescent()
 		c := r.begin(opSettle, -1, -1)
+		c.Val2 = wd.root.stalledNow
 		r.end(c)
+		if wd.root.stalledNow > 0 {
+			// let the stalled acknowledgements return; at-rest samples need real rest
+			for i := 0; i < 8 && wd.root.stalledNow > 0; i++ {
+				wd.root.releaseStalls()
+				if op.A == 1 || op.A == 3 {
+					simrt.WaitQuiescent()
+				}
+			}
+			if wd.root.stalledNow > 0 {
+				return
+			}
+		}
 		if op.A == 1 {
 			wd.sample(true)
 		}
 		if op.A == 3 {
 			wd.sampleIdle(1)
 			wd.sample(true)
+		}
+	case opWarmDone:
+		wd.warmDone = true
+	case opAwaitWarm:
+		if wd.hasWarm && !wd.warmDone {
+			simrt.Block(func() bool { return wd.warmDone })
 		}
 	case opAdvance:
 		// only the clock moves; nobody waits for quiescence here
